@@ -1,6 +1,7 @@
 package checks
 
 import (
+	"encoding/json"
 	"fmt"
 	"go/ast"
 	goparser "go/parser"
@@ -12,6 +13,26 @@ import (
 
 	"verif/h/eng"
 )
+
+// overlaid maps a source path through the build overlay of this run (VERIF_OVERLAY), so that the scan reads the same
+// files the harness binary was built from.
+func overlaid(path string) string {
+	ov := os.Getenv("VERIF_OVERLAY")
+	if ov == "" {
+		return path
+	}
+	b, err := os.ReadFile(ov)
+	if err != nil {
+		return path
+	}
+	var o struct{ Replace map[string]string }
+	if json.Unmarshal(b, &o) == nil {
+		if r, ok := o.Replace[path]; ok && r != "" {
+			return r
+		}
+	}
+	return path
+}
 
 // MutableGlobal is one package-level variable of d2 that is written outside init / its own initialiser.
 type MutableGlobal struct {
@@ -40,7 +61,7 @@ func scanMutableGlobals(dirs []string) ([]MutableGlobal, error) {
 			if strings.HasSuffix(n, "_js.go") || strings.Contains(n, "_wasm") {
 				continue
 			}
-			f, err := goparser.ParseFile(fset, filepath.Join(dir, n), nil, 0)
+			f, err := goparser.ParseFile(fset, overlaid(filepath.Join(dir, n)), nil, 0)
 			if err != nil {
 				return nil, err
 			}
